@@ -342,8 +342,9 @@ func genVal(r *Rng, kind int, nullable bool) any {
 
 // ---------- types and resources ----------
 
-var fieldNames = []string{"a", "b", "c", "ab", "a_b", "name", "x", "y", "many", "manys", "one", "n1", "n2", "n3", "n4", "n5"}
-var idPool = []string{"1", "2", "3", "10", "a", "b", "abc", "id", "x y", "é", "", "0", "9", "z"}
+var fieldNames = []string{"a", "b", "c", "ab", "a_b", "name", "x", "y", "many", "manys", "one", "n1", "n2", "n3", "n4", "n5",
+	"type", "links", "meta", "data", "attributes", "relationships", "self", "related", "ID", "Id"} // the last ten: names of JSON:API members, legal as field names
+var idPool = []string{"1", "2", "3", "10", "a", "b", "abc", "id", "x y", "é", "", "0", "9", "z", "a/b", "..", "a%2Fb", "1e3", "null", "01"}
 
 type genTypeOpts struct {
 	name     string
